@@ -153,7 +153,7 @@ Theorem suffix_confinement : forall p d s items tail v' e,
 Proof. exact suffix_confinement_lemma. Qed.
 Print Assumptions suffix_confinement.
 
-(* SUFFIX CONFINEMENT for two syntactic CLASSES of damaged commands (hypotheses are checkable
+(* SUFFIX CONFINEMENT for three syntactic CLASSES of damaged commands (hypotheses are checkable
    predicates on the text; no hypothesis about the run).  In both, the damaged command follows
    a well-formed file and junk, is followed by arbitrary text r without '@', and then by any
    well-formed items: those items are read exactly as they denote under the macro table in
@@ -165,7 +165,15 @@ Print Assumptions suffix_confinement.
        cx that is neither (closing delimiter deleted or replaced, ',' replaced, a stray
        delimiter / '=' after a value ...; cx is not whitespace, '#', ',', a name character or
        '@'); the damaged entry itself contributes what its complete fields denote.
-   F25 ('@' followed by whitespace and the next '@') is outside both classes: X = '@'. *)
+   (3) BROKEN FIELD: a complete entry head, zero or more complete fields each followed by ',',
+       then a field name NOT followed by '=' ('=' deleted or replaced, a stray token), or a field
+       name and '=' NOT followed by a value (value deleted, its opening delimiter replaced by
+       something that cannot start a value); the offending character is not whitespace, not a
+       name character and not '@'; the damaged entry contributes its complete fields.
+   F25 ('@' followed by whitespace and the next '@') is outside all classes: X = '@'.
+   Still only oracle-checked: damage that leaves the scanner inside a string or a name / key
+   token (deleted or duplicated delimiters that stay balanced, a deleted ',' before a field
+   name, truncation inside a value), and any damage followed directly (no whitespace) by '@'. *)
 Theorem suffix_confinement_damaged_head : forall items junk ws X r v e items2 tail2 v2 e2,
   wf_file month_macros items -> no_at junk -> no_at r -> forallb is_space ws = true ->
   is_space X = false -> is_name_start X = false -> N.eqb X c_at = false ->
@@ -194,6 +202,23 @@ Theorem suffix_confinement_damaged_close :
     /\ Proofs.BibFile.view d' = v2 /\ p_errs s' = map data_err e ++ [te] ++ map data_err e1 ++ map data_err e2 /\ e_cls te = E_TOKEN.
 Proof. exact suffix_confinement_damaged_close_lemma. Qed.
 Print Assumptions suffix_confinement_damaged_close.
+
+Theorem suffix_confinement_broken_field :
+  forall items junk brace ws0 typ ws1 ws2 key wsk fs bk r v e v1 e1 items2 tail2 v2 e2,
+  wf_file month_macros items -> no_at junk -> no_at r -> N.eqb (broken_char bk) c_at = false ->
+  forallb is_space ws0 = true -> forallb is_space ws1 = true -> forallb is_space ws2 = true -> forallb is_space wsk = true ->
+  is_entry_type typ = true -> is_key brace key = true -> Forall (wf_sfield (final_macros month_macros items)) fs ->
+  wf_broken bk ->
+  denote_items2 month_macros items ([], []) = Some (v, e) ->
+  denote_cmd2 (CEntry typ (Some key) (map (field_result (final_macros month_macros items)) fs)) v = Some (v1, e1) ->
+  wf_file (final_macros month_macros items) items2 -> no_at tail2 ->
+  denote_items2 (final_macros month_macros items) items2 v1 = Some (v2, e2) ->
+  exists d' s' te,
+    parse_bib Capture (file_text2 items (junk ++ c_at :: ws0 ++ typ ++ ws1 ++ op_char brace :: ws2 ++ key ++ wsk ++ c_comma :: fields_pre fs (broken_text bk r))
+                       ++ file_text2 items2 tail2) = Ret d' s'
+    /\ Proofs.BibFile.view d' = v2 /\ p_errs s' = map data_err e ++ [te] ++ map data_err e1 ++ map data_err e2 /\ e_cls te = E_TOKEN.
+Proof. exact suffix_confinement_broken_field_lemma. Qed.
+Print Assumptions suffix_confinement_broken_field.
 
 (* ---- the same for the reader WITH OPTIONS (Model/BibParserOpt.v):
    Parser(wanted_entries=..., keyless_entries=..., macros=..., person_fields=...) -- for EVERY
@@ -262,6 +287,14 @@ Proof.
   repeat split; try reflexivity; try discriminate; try (intros x Hx; cbn in Hx; repeat (destruct Hx as [<-|Hx]; [reflexivity|]); contradiction);
     try (repeat constructor; try reflexivity; try discriminate; cbn; congruence); try (intros H; discriminate H); auto.
 Qed.
+
+Example ex_broken_field :
+  file_text2 ex_before (s2l "
+" ++ c_at :: s2l "misc" ++ op_char true :: s2l "k2" ++ c_comma :: fields_pre [ex_f2] (broken_text (BNoEq (s2l " ") (s2l "year") (s2l " ") 123%N) (s2l "1999}}")))
+  = s2l "@book{k1,t = {One}}
+@misc{k2, note = ""n"" , year {1999}}" /\ wf_broken (BNoEq (s2l " ") (s2l "year") (s2l " ") 123%N)
+  /\ wf_broken (BNoVal [] (s2l "year") (s2l " ") (s2l " ") 44%N).
+Proof. split; [vm_compute; reflexivity|]. split; repeat split; try reflexivity; discriminate. Qed.
 
 Definition ex_untouched (t : string) : bool :=
   match parse_bib Capture (s2l t) with Ret _ s => untouchedb s | _ => false end.
